@@ -103,6 +103,7 @@ fn cmd_drive(m: &BTreeMap<String, String>) {
         flood: get(m, "flood", 0),
         warp: get(m, "warp", 0),
         pure: get(m, "pure", 0),
+        pressure: get(m, "pressure", 0),
         pure_factor: get(m, "pure-factor", 5),
         warp_lib: m.get("warp-lib").map(PathBuf::from),
         dump_sessions: get(m, "dump-sessions", 0),
